@@ -95,6 +95,9 @@ impl Drop for Proc {
 #[derive(Clone, Debug, Serialize, Deserialize, PartialEq, Eq, Hash)]
 pub enum L1 {
     Append { len: u32 },
+    /// n appends of len bytes each: a log larger than one read batch (10 MiB) made of records
+    /// large enough for the byte budget, not the entry cap, to end a batch
+    Bulk { n: u16, len: u32 },
     /// end this lifetime (clean exit, or SIGKILL right after the last acknowledged append)
     Reopen { kill: bool },
 }
@@ -108,10 +111,23 @@ pub struct L1Case {
 fn l1_strategy() -> BoxedStrategy<L1Case> {
     let len = prop_oneof![7 => 8u32..200, 3 => 200u32..5000, 1 => 5000u32..65536];
     (
-        proptest::collection::vec(prop_oneof![8 => len.prop_map(|len| L1::Append { len }), 2 => prop_oneof![4 => Just(false), 1 => Just(true)].prop_map(|kill| L1::Reopen { kill })], 1..60),
+        proptest::collection::vec(
+            prop_oneof![
+                32 => len.prop_map(|len| L1::Append { len }),
+                8 => prop_oneof![4 => Just(false), 1 => Just(true)].prop_map(|kill| L1::Reopen { kill }),
+            ],
+            1..60,
+        ),
         prop_oneof![Just(0u64), Just(1), Just(100)],
+        proptest::option::weighted(0.15, (any::<u16>(), 150u16..=340, 36_000u32..65_536)),
     )
-        .prop_map(|(ops, flush_ms)| L1Case { ops, flush_ms })
+        .prop_map(|(mut ops, flush_ms, bulk)| {
+            if let Some((pos, n, len)) = bulk {
+                let at = (pos as usize * (ops.len() + 1)) >> 16;
+                ops.insert(at, L1::Bulk { n, len });
+            }
+            L1Case { ops, flush_ms }
+        })
         .boxed()
 }
 
@@ -138,7 +154,18 @@ pub fn run_l1(case: &L1Case, excl: &BTreeSet<String>) -> Out {
     let mut seq = 0u64;
     let mut lifetimes = 0;
     let res = (|| -> Result<(), String> {
-        let mut ops = case.ops.clone();
+        let mut ops: Vec<L1> = Vec::new();
+        for op in &case.ops {
+            match op {
+                L1::Bulk { n, len } => {
+                    o.features.insert("log_larger_than_one_read_batch".into());
+                    for _ in 0..*n {
+                        ops.push(L1::Append { len: *len });
+                    }
+                }
+                other => ops.push(other.clone()),
+            }
+        }
         ops.push(L1::Reopen { kill: false });
         let mut p = Proc::spawn(&base, case.flush_ms)?;
         let mut opened = false;
@@ -203,6 +230,7 @@ pub fn run_l1(case: &L1Case, excl: &BTreeSet<String>) -> Out {
                     }
                     seq += 1;
                 }
+                L1::Bulk { .. } => {}
                 L1::Reopen { kill } => {
                     // known finding: read_all consumes with a durable cursor, so only one
                     // restart is survivable; later ones are excluded while it is open
